@@ -212,7 +212,7 @@ impl Geom {
         // now and then the volume sits at the very end of the 32-bit block address space
         if rng.chance(1, 10) {
             // (room is left for a caller that adds FAT copies afterwards)
-            g.part_start = u32::MAX - 200 - rng.below(50) as u32 - g.part_len() - 3 * g.fat_size();
+            g.part_start = u32::MAX - 1400 - rng.below(50) as u32 - g.part_len() - 3 * g.fat_size();
         }
         g
     }
